@@ -88,3 +88,24 @@ def engine_phase(run, num, ops=40, window=0, mc=True, tag=""):
     run.cov["engine_trunc_refused"] = run.cov.get("engine_trunc_refused", 0) + sum(
         1 for b in behs for i, o in enumerate(b) if o["op"] == "minetrunc" and i + 1 < len(b) and b[i + 1]["op"] == "walk" and b[i + 1]["res"] == "fail")
     return behs, st
+
+
+def net_phase(run, num, ops=34, nodes=3, mc=True):
+    """Net.tla: a network of real engines in one process (own ledger / state / miner each). TLC model-checks the
+    network design (every node keeps C02 / C03 / C04-tip rule, every produced block replays everywhere, convergence
+    once every announcement is delivered); TLC-simulated schedules of submissions, mining rounds, block / transaction
+    deliveries in any order, losses and restarts are executed on the real nodes; after every step the projection of
+    EVERY node is validated against the state the specification derives from that node's chain and pool."""
+    if mc:
+        run.tlc_mc("Net.tla", "MC_Net.cfg", timeout=3000)
+    nodeset = "{" + ", ".join(str(i) for i in range(1, nodes + 1)) + "}"
+    behs = run.tlc_gen("Gen_Net.tla", "Gen_Net.cfg", num, ops + 2, name="genN", seed=run.seed * 1000 + 99,
+                       consts={"MaxOps": ops, "Nodes": nodeset})
+    cat = os.path.join(run.work, "genN", "catalog.json")
+    tracecheck.replay_and_validate(run, behs, driver="net-replay", driver_args=["-catalog", cat, "-nodes", str(nodes)],
+                                   trace_module="Trace_Net.tla", trace_cfg="Trace_Net.cfg", consts={"Nodes": nodeset},
+                                   name="N", batch=60)
+    st = stats(behs)
+    run.cov["net_op_mix"] = dict(st)
+    run.cov["net_nodes"] = nodes
+    return behs, st
